@@ -46,6 +46,8 @@ ApplyOp(m, op) ==
     [] op.o = "Remove"     -> [m |-> RemoveAll(m, op.x),      res |-> [k |-> "ok"]]
     [] op.o = "Count"      -> [m |-> m,                       res |-> [k |-> "n", n |-> Len(m)]]
     [] op.o = "First"      -> [m |-> m,                       res |-> IF m = <<>> THEN [k |-> "none"] ELSE [k |-> "id", id |-> m[1]]]
+    \* persisting the container and reading it back (JSON / gob) changes nothing
+    [] op.o \in {"SaveLoadJSON", "SaveLoadGob"} -> [m |-> m,         res |-> [k |-> "ok"]]
     \* read-only views of the member list (growth beyond C13's statement)
     [] op.o = "IRIs"       -> [m |-> m,                       res |-> [k |-> "ids", ids |-> m]]
     [] op.o = "Normalize"  -> [m |-> m,                       res |-> IF m = <<>> THEN [k |-> "none"]
